@@ -106,6 +106,8 @@ fn marlin_comm_lin(a: Fr, c1: &ark_poly_commit::marlin_pc::Commitment<Bls12_381>
 pub struct MarlinA;
 impl Adapter for MarlinA {
     type F = Fr; type P = UniPoly; type PC = MarlinPC;
+    fn size_shape_comm(cm: &Cm<Self>) -> Vec<String> { vec![(cm.shifted_comm.is_some() as usize).to_string()] }
+    fn size_shape_proof(pf: &Pf<Self>) -> Vec<String> { vec![(pf.random_v.is_some() as usize).to_string()] }
     fn make_poly(toks: &[String], _nv: Option<usize>) -> UniPoly { uni_poly(toks) }
     fn make_point(toks: &[String]) -> Fr { f_from_str(&toks[0]) }
     fn setup(c: &Case) -> Outcome<UP<Self>> {
@@ -173,6 +175,8 @@ impl Adapter for MarlinA {
 pub struct SonicA;
 impl Adapter for SonicA {
     type F = Fr; type P = UniPoly; type PC = SonicPC;
+    fn size_shape_comm(_cm: &Cm<Self>) -> Vec<String> { vec!["0".into()] }
+    fn size_shape_proof(pf: &Pf<Self>) -> Vec<String> { vec![(pf.random_v.is_some() as usize).to_string()] }
     fn make_poly(toks: &[String], _nv: Option<usize>) -> UniPoly { uni_poly(toks) }
     fn make_point(toks: &[String]) -> Fr { f_from_str(&toks[0]) }
     fn setup(c: &Case) -> Outcome<UP<Self>> {
@@ -227,6 +231,10 @@ fn ed_lin(a: EdFr, x: &EdwardsAffine, b: EdFr, y: &EdwardsAffine) -> EdwardsAffi
 pub struct IpaA;
 impl Adapter for IpaA {
     type F = EdFr; type P = DensePolynomial<EdFr>; type PC = IpaPC;
+    fn size_shape_comm(cm: &Cm<Self>) -> Vec<String> { vec![(cm.shifted_comm.is_some() as usize).to_string()] }
+    fn size_shape_proof(pf: &Pf<Self>) -> Vec<String> {
+        vec![pf.l_vec.len().to_string(), pf.r_vec.len().to_string(), (pf.hiding_comm.is_some() as usize).to_string(), (pf.rand.is_some() as usize).to_string()]
+    }
     fn make_poly(toks: &[String], _nv: Option<usize>) -> Self::P { uni_poly(toks) }
     fn make_point(toks: &[String]) -> EdFr { f_from_str(&toks[0]) }
     fn comm_lin(a: EdFr, c1: &Cm<Self>, b: EdFr, c2: &Cm<Self>) -> Option<Cm<Self>> {
@@ -322,6 +330,8 @@ impl IpaA {
 pub struct Pst13A;
 impl Adapter for Pst13A {
     type F = Fr; type P = MVPoly; type PC = Pst13PC;
+    fn size_shape_comm(cm: &Cm<Self>) -> Vec<String> { vec![(cm.shifted_comm.is_some() as usize).to_string()] }
+    fn size_shape_proof(pf: &Pf<Self>) -> Vec<String> { vec![pf.w.len().to_string(), (pf.random_v.is_some() as usize).to_string()] }
     /// tokens: (coeff k (var pow){k})*
     fn make_poly(toks: &[String], nv: Option<usize>) -> MVPoly {
         let nv = nv.expect("num_vars");
@@ -368,6 +378,12 @@ impl Adapter for Pst13A {
 pub struct HyraxA;
 impl Adapter for HyraxA {
     type F = EdFr; type P = DenseMultilinearExtension<EdFr>; type PC = HyraxPCS;
+    fn size_shape_comm(cm: &Cm<Self>) -> Vec<String> { vec![cm.row_coms.len().to_string()] }
+    fn size_shape_proof(pf: &Pf<Self>) -> Vec<String> {
+        let mut v = vec![pf.len().to_string()];
+        for p in pf.iter() { v.push(p.z.len().to_string()); }
+        v
+    }
     fn make_poly(toks: &[String], nv: Option<usize>) -> Self::P {
         DenseMultilinearExtension::from_evaluations_vec(nv.expect("num_vars"), fs_from_strs(toks))
     }
@@ -492,6 +508,28 @@ fn mutate_lincode_proof(kind: &str, pf: &Vec<ark_poly_commit::linear_codes::LinC
 
 pub struct LigeroUniA;
 /// Ligero parameters other than the ones hard-wired in `setup` (security level, rate, well-formedness switch)
+fn lincode_shape_comm(cm: &Cm<LigeroUniA>) -> Vec<String> {
+    let (r, c, e) = ark_poly_commit::linear_codes::verif_hooks::commitment_metadata(cm);
+    let mut cm2 = cm.clone();
+    let root = ark_poly_commit::linear_codes::verif_hooks::commitment_root_mut(&mut cm2);
+    vec![r.to_string(), c.to_string(), e.to_string(), (ser_bytes(root, true).len() - 8).to_string()]   // digest bytes without the length prefix
+}
+/// [count, then per proof: paths, auth path length, leaf-sibling bytes, inner digest bytes, |v|, columns, column length, wf present, |wf|]
+fn lincode_shape_proof(pf: &Vec<ark_poly_commit::linear_codes::LinCodePCProof<Fr, MTConfig>>) -> Vec<String> {
+    let mut v = vec![pf.len().to_string()];
+    for p in pf.iter() {
+        let (paths, vv, cols, wf) = ark_poly_commit::linear_codes::verif_hooks::proof_parts(p);
+        let (apl, lsb, idb) = match paths.first() {
+            Some(pa) => (pa.auth_path.len(), paths.iter().map(|q| ser_bytes(&q.leaf_sibling_hash, true).len() - 8).max().unwrap_or(0).max(32), pa.auth_path.first().map(|d| ser_bytes(d, true).len() - 8).unwrap_or(32)),
+            None => (0, 0, 0),
+        };
+        let same = paths.iter().all(|pa| pa.auth_path.len() == apl) && cols.iter().all(|c| c.len() == cols[0].len());
+        v.extend([paths.len(), apl, lsb, idb, vv.len(), cols.len(), cols.first().map(|c| c.len()).unwrap_or(0),
+                  wf.is_some() as usize, wf.as_ref().map(|w| w.len()).unwrap_or(0), same as usize].iter().map(|x| x.to_string()));
+    }
+    v
+}
+
 fn ligero_params(c: &Case) -> Option<ark_poly_commit::linear_codes::LigeroPCParams<Fr, MTConfig, ColH<Fr>>> {
     if !c.has("lig") { return None; }
     let v = c.usizes("lig");   // sec_param rho_inv check_well_formedness
@@ -500,6 +538,8 @@ fn ligero_params(c: &Case) -> Option<ark_poly_commit::linear_codes::LigeroPCPara
 
 impl Adapter for LigeroUniA {
     type F = Fr; type P = UniPoly; type PC = LigeroUniPC;
+    fn size_shape_comm(cm: &Cm<Self>) -> Vec<String> { lincode_shape_comm(cm) }
+    fn size_shape_proof(pf: &Pf<Self>) -> Vec<String> { lincode_shape_proof(pf) }
     fn make_poly(toks: &[String], _nv: Option<usize>) -> UniPoly { uni_poly(toks) }
     fn make_point(toks: &[String]) -> Fr { f_from_str(&toks[0]) }
     fn setup(c: &Case) -> Outcome<UP<Self>> {
@@ -515,6 +555,8 @@ impl Adapter for LigeroUniA {
 pub struct LigeroMLA;
 impl Adapter for LigeroMLA {
     type F = Fr; type P = SparseMultilinearExtension<Fr>; type PC = LigeroMLPC;
+    fn size_shape_comm(cm: &Cm<Self>) -> Vec<String> { lincode_shape_comm(cm) }
+    fn size_shape_proof(pf: &Pf<Self>) -> Vec<String> { lincode_shape_proof(pf) }
     fn make_poly(toks: &[String], nv: Option<usize>) -> Self::P { sparse_ml(toks, nv) }
     fn make_point(toks: &[String]) -> Vec<Fr> { fs_from_strs(toks) }
     fn setup(c: &Case) -> Outcome<UP<Self>> {
@@ -531,6 +573,8 @@ impl Adapter for LigeroMLA {
 pub struct BrakedownMLA;
 impl Adapter for BrakedownMLA {
     type F = Fr; type P = SparseMultilinearExtension<Fr>; type PC = BrakedownMLPC;
+    fn size_shape_comm(cm: &Cm<Self>) -> Vec<String> { lincode_shape_comm(cm) }
+    fn size_shape_proof(pf: &Pf<Self>) -> Vec<String> { lincode_shape_proof(pf) }
     fn make_poly(toks: &[String], nv: Option<usize>) -> Self::P { sparse_ml(toks, nv) }
     fn make_point(toks: &[String]) -> Vec<Fr> { fs_from_strs(toks) }
     fn setup(c: &Case) -> Outcome<UP<Self>> {
